@@ -54,7 +54,7 @@ def random_scenarios(ctx, n, family, start_run=1):
                       workers=rng.choice([1, 2, 3, 4]), batch=rng.choice([1, 2, 3]), single=rng.random() < 0.15,
                       lines=random_lines(rng, nev, rng.choice([1, 1, 2, 3]), rng.choice([["a"], ["a", "b"], ["a", "b", "c"]]),
                                          rng.choice([["P"], ["P", "D"], ["P", "D", "B"], ["P", "P", "D", "H", "C", "C"],
-                                                     ["P", "D", "R", "E"], ["P", "S", "D"], ["P", "S"], ["P", "G", "C", "Q", "H"], ["G", "P", "Q"],
+                                                     ["P", "D", "R", "E"], ["P", "S", "D"], ["P", "S"], ["P", "Y", "S"], ["Y", "H", "C"], ["P", "G", "C", "Q", "H"], ["G", "P", "Q"],
                                                      ["H", "N", "C"], ["P", "H", "N", "N"]])))
         elif family == "retry":       # C09: failures, with/without dead queue
             retry = rng.choice([0, 1, 2])
@@ -322,7 +322,7 @@ def execute_and_validate(ctx, pid, scenarios, par=8):
         rec["scenarios"] = [s["name"] for s in scenarios][:20]
         ctx.classify([rec])
         return []
-    maxid = max((20 + 2 * len(sc["lines"]) if any(l["cls"] == "S" for l in sc["lines"]) else len(sc["lines"])) for sc in scenarios) + 1
+    maxid = max((20 + 2 * len(sc["lines"]) if any(l["cls"] in ("S", "Y") for l in sc["lines"]) else len(sc["lines"])) for sc in scenarios) + 1
     ctx._last_trace = trace
     viol, nlines = validate(ctx, trace, maxid=max(maxid, 8))
     ctx.traces_validated += stats["runs"]
@@ -410,7 +410,7 @@ def conformance(ctx, trace, groups):
                 out.writelines(runs[r])
                 n += len(runs[r])
         maxid = max(len(json.loads(runs[r][0])["lines"]) for r in rs)
-        ov = _split_ov(any(l["cls"] == "S" for r in rs for l in json.loads(runs[r][0])["lines"]), maxid)
+        ov = _split_ov(any(l["cls"] in ("S", "Y") for r in rs for l in json.loads(runs[r][0])["lines"]), maxid)
         ov.update({"NProcs": "3", "Capacity": str(cons["Capacity"]), "NWorkers": str(cons["NWorkers"]),
               "BatchCount": str(cons["BatchCount"]), "Retry": str(cons["Retry"]), "HasDQ": "TRUE" if cons["HasDQ"] else "FALSE"})
         res = ctx.tlc("PipelineTrace", "PipelineTrace.cfg", workers=1, files={f: "trace.ndjson"}, timeout=300, deadlock=False, check=False,
@@ -454,7 +454,7 @@ def conformance_selftest(ctx, trace, cons, run):
     lines[idx[0]] = json.dumps(e) + "\n"
     f = os.path.join(ctx.scratch, "conf_selftest.ndjson")
     open(f, "w").writelines(lines)
-    ov = _split_ov(any(l["cls"] == "S" for l in json.loads(lines[0])["lines"]), len(json.loads(lines[0])["lines"]))
+    ov = _split_ov(any(l["cls"] in ("S", "Y") for l in json.loads(lines[0])["lines"]), len(json.loads(lines[0])["lines"]))
     ov.update({"NProcs": "3", "Capacity": str(cons["Capacity"]), "NWorkers": str(cons["NWorkers"]),
           "BatchCount": str(cons["BatchCount"]), "Retry": str(cons["Retry"]), "HasDQ": "TRUE" if cons["HasDQ"] else "FALSE"})
     res = ctx.tlc("PipelineTrace", "PipelineTrace.cfg", workers=1, files={f: "trace.ndjson"}, timeout=120, deadlock=False, check=False,
